@@ -116,6 +116,7 @@ def run(tier: str) -> int:
         jobs.append(("sim", "n=4 len<=3", cc.consts(cc.CORE_OPS, {4}, 3, 4), 2000, 60, sd + 12))
         jobs.append((E, "sequence_equal(observable)", cc.consts(["sequence_equal"], {2}, 2, 2, nvals=2, faults=True), 0, 0, 0))
         jobs.append((E, "subscription-instant notifications (cold)", cc.consts(cc.CORE_OPS + G3, {1, 2}, 2, 2, mint=0), 0, 0, 0))
+        jobs.append((E, "synchronous delivery inside subscribe()", cc.consts(cc.CORE_OPS + G3, {1, 2, 3}, 2, 1, terms=("C", "U"), mint=0, sync=True), 0, 0, 0))
         jobs.append(("sim", "n=4 len<=3 sparse ties", cc.consts(cc.CORE_OPS, {4}, 3, 8), 1000, 60, sd + 13))
         jobs.append((E, "dispose n=2", cc.consts(cc.CORE_OPS + G3, {2}, 2, 2, disposes=True, dispose_in=2), 0, 0, 0))
         jobs.append((E, "dispose n=3", cc.consts(cc.CORE_OPS, {3}, 1, 2, terms=("C", "U"), disposes=True, dispose_in=1), 0, 0, 0))
